@@ -171,6 +171,7 @@ def build():
     v.rewrite_re('R6', r'coeffs\.extend\(salts\[mat_idx\]\.iter\(\)\.copied\(\)\);', 'coeffs.extend_from_slice(salts[mat_idx].as_slice());', min_count=1)
     v.rewrite_re('R6', r'circuit\.add_mmcs_verify\(\s*permutation_config,\s*&op_vals_digests,\s*path_bits,\s*&selected_root,\s*\)', 'circuit.add_mmcs_verify(permutation_config, op_vals_digests.as_slice(), path_bits, selected_root.as_slice())', min_count=1)
     v.rewrite_re('R6', r'(add_hash_base_coeffs_overwrite\(\s*circuit,\s*&permutation_config,\s*)&all_base_coeffs', r'\1all_base_coeffs.as_slice()', min_count=1)
+    u.text('verus! {\n/// p3-merkle-tree geometry checks of a batch opening: equal heights inside one power-of-two bucket, index below the tallest height\npub uninterp spec fn native_geometry_ok<F: Field>(dims: Seq<Dimensions>, index_bits: Seq<F>) -> bool;\n}')
     u.text('''verus! {
 #[verifier::external_body]
 pub fn empty_digests(n: usize) -> (r: Vec<Vec<Target>>) ensures r@.len() == n, forall|i: int| 0 <= i < n ==> (#[trigger] r@[i])@.len() == 0 { unimplemented!() }
@@ -185,6 +186,9 @@ pub fn empty_digests(n: usize) -> (r: Vec<Vec<Target>>) ensures r@.len() == n, f
     v.ensures('frame', 'final(circuit).extends(old(circuit))')
     # native check_widths (p3-merkle-tree mmcs/geometry.rs): the leaf hash flattens the rows of one height into one stream, so a digest match does not pin where one row ends
     v.ensures('H_every_opened_row_has_the_width_of_its_matrix', 'ret is Ok ==> forall|i: int| 0 <= i < dimensions@.len() ==> (#[trigger] opened_base_coeffs@[i])@.len() == dimensions@[i].width')
+    # native MerkleTreeMmcs::verify_batch (geometry.rs): heights that round up to the same power of two must be equal (IncompatibleHeights) and index < max_height (IndexOutOfBounds);
+    # the circuit buckets matrices by the padded height only and takes the index as index_bits (open finding)
+    v.ensures('H_the_claimed_heights_lie_on_the_native_ladder_and_the_index_is_below_the_tallest_height', 'ret is Ok ==> native_geometry_ok(dimensions@, old(circuit).vals_of(index_bits@))')
     v.ensures('rejects_mismatched_batch_sizes', 'ret is Ok ==> dimensions@.len() == opened_base_coeffs@.len() && (salts matches Some(sl) ==> sl@.len() == opened_base_coeffs@.len())')
     v.ensures('asserts_the_native_batch_opening_relation',
               '''ret is Ok ==> ({
